@@ -16,7 +16,7 @@ import (
 // <%= %> tags, in source order; <% %> and <%# %> tags contribute nothing, at top level and inside blocks;
 // string literals denote the characters between their quotes.
 //
-// Two streams:
+// Three streams (the third, C02-hist, is in oracle_c02_hist.go):
 //   C02-text  every byte string up to a length bound over {< % > \ = # " a LF}. The expectation comes from
 //             c02RefText (the reference for the two escapes) and c02SimpleTag (the few tag shapes that
 //             fit in so few bytes and whose contribution the property fixes). Where a text contains a
@@ -24,6 +24,9 @@ import (
 //             and only if Render succeeds.
 //   C02-seg   random segment programs (text / output tag / silent tag / comment / blocks, nested); the
 //             generator knows each segment's contribution, so the expected output is a concatenation.
+//   C02-hist  histories of renders of such programs in one process (some abandoned by a helper panic or a
+//             returned error, nested renders, re-used templates, concurrent renders): every render that
+//             completes must still yield exactly its own text and values.
 
 // c02RefText is the reference for literal text: it decodes s up to the first live tag opener and returns
 // the decoded text and the offset of that opener (-1 if there is none).
@@ -1155,30 +1158,39 @@ func c02EvalIn(ns []*c02Node, inBlock bool, outer map[string]string, inLoop, inF
 	return tb.String(), wb.String(), ok, flow
 }
 
-func c02Ctx() *plush.Context {
-	ctx := plush.NewContext()
-	ctx.Set("blk", func(help plush.HelperContext) (template.HTML, error) {
+// c02CtxData: the helpers and values every segment program may use.
+func c02CtxData() map[string]interface{} {
+	m := map[string]interface{}{}
+	m["blk"] = func(help plush.HelperContext) (template.HTML, error) {
 		s, err := help.Block()
 		return template.HTML(s), err
-	})
-	ctx.Set("id", func(s string) string { return s })
-	ctx.Set("hid", func(s string) template.HTML { return template.HTML(s) })
+	}
+	m["id"] = func(s string) string { return s }
+	m["hid"] = func(s string) template.HTML { return template.HTML(s) }
 	// things to loop over
-	ctx.Set("xs", []int{1, 2, 3})
-	ctx.Set("none", []int{})
-	ctx.Set("ss", []string{"p", "q<"})
-	ctx.Set("arr", [2]string{"m", "n"})
-	ctx.Set("pxs", &[]int{4, 5})
-	ctx.Set("m1", map[string]int{"k": 9})
-	ctx.Set("m3", map[string]int{"a": 1, "b": 2, "c": 3})
-	ctx.Set("seq", func(n int) plush.Iterator {
+	m["xs"] = []int{1, 2, 3}
+	m["none"] = []int{}
+	m["ss"] = []string{"p", "q<"}
+	m["arr"] = [2]string{"m", "n"}
+	m["pxs"] = &[]int{4, 5}
+	m["m1"] = map[string]int{"k": 9}
+	m["m3"] = map[string]int{"a": 1, "b": 2, "c": 3}
+	m["seq"] = func(n int) plush.Iterator {
 		q := &c02Seq{}
 		for i := 1; i <= n; i++ {
 			q.items = append(q.items, i)
 		}
 		return q
-	})
-	ctx.Set("wordseq", func() plush.Iterator { return &c02Seq{items: []interface{}{"p", "q<", "&r"}} })
+	}
+	m["wordseq"] = func() plush.Iterator { return &c02Seq{items: []interface{}{"p", "q<", "&r"}} }
+	return m
+}
+
+func c02Ctx() *plush.Context {
+	ctx := plush.NewContext()
+	for k, v := range c02CtxData() {
+		ctx.Set(k, v)
+	}
 	return ctx
 }
 
@@ -1646,6 +1658,9 @@ func c02ParseSegCase(s string) (sig, want, tmpl string, err error) {
 func init() {
 	oracles["C02"] = func(cfg Config) []*Report {
 		if cfg.Arg != "" {
+			if strings.HasPrefix(cfg.Arg, "hist=") {
+				return []*Report{c02HistReplay(cfg)}
+			}
 			if strings.HasPrefix(cfg.Arg, "want=") || strings.HasPrefix(cfg.Arg, "sig=") {
 				rep := NewReport("C02", "C02-seg", cfg)
 				rep.Rule = "replay of one segment program (expected output carried by the case)"
@@ -1681,6 +1696,6 @@ func init() {
 			}
 			return []*Report{rep}
 		}
-		return []*Report{c02TextStream(cfg, cfg.N(6, 8)), c02SegStream(cfg)}
+		return []*Report{c02TextStream(cfg, cfg.N(6, 8)), c02SegStream(cfg), c02HistStream(cfg)}
 	}
 }
